@@ -1153,6 +1153,84 @@ func c10VaryPanic(r *verifh.Rng, c c10Cfg) c10Cfg {
 	return c
 }
 
+// c10MultiCancel enumerates SEVERAL cancels in ONE call whose errors have DIFFERENT dynamic types (the cell the error is
+// recorded in accepts one dynamic type only: only the first cancel may reach it): two mappers at the same time, a
+// mapper and the reducer, a second cancel after the first has returned, a user cancel followed by the END OF THE
+// CONTEXT while that cancel is still draining a generator that stalls until the context has ended (the library's own
+// cancel(DeadlineExceeded) is the second one), two Finish functions — on every entry point that has a cancel.
+func c10MultiCancel(r *verifh.Rng) []c10Cfg {
+	var out []c10Cfg
+	it := strconv.Itoa
+	kinds := append([]int{0, 5}, c10SpecialErrs...)
+	pair := func() (string, string) {
+		a := kinds[r.Intn(len(kinds))]
+		b := kinds[r.Intn(len(kinds))]
+		for b == a || (a == 0 && b == 110) || (a == 110 && b == 0) {
+			b = kinds[r.Intn(len(kinds))]
+		}
+		return "c" + it(a), "c" + it(b)
+	}
+	for rep := 0; rep < 3; rep++ {
+		for _, api := range []string{"mr", "void", "chan"} {
+			rd := []string{"a", "w7"}
+			// two mappers cancel at the same time
+			k1, k2 := pair()
+			c := c10Cfg{api: api, n: 3, w: 2, ctx: "none", gp: -1, gx: -1}
+			c.m = [][]string{{"us1", k1}, {"us0", k2}, {"w3"}}
+			c.r = rd
+			out = append(out, c)
+			// a mapper and the reducer
+			k1, k2 = pair()
+			c = c10Cfg{api: api, n: 2, w: 1, ctx: "none", gp: -1, gx: -1}
+			c.m = [][]string{{"w1", k1}, {"w2"}}
+			c.r = []string{"us0", k2, "a"}
+			out = append(out, c)
+			// the second cancel only after the first one has returned
+			k1, k2 = pair()
+			c = c10Cfg{api: api, n: 2, w: 2, ctx: "none", gp: -1, gx: -1}
+			c.m = [][]string{{k1}, {"w2"}}
+			c.r = []string{"ucem0", k2, "a"}
+			out = append(out, c)
+			// a user cancel is draining a generator that stalls until the context has ended; the reducer ends the context
+			// once the cancel has begun: the library's cancel(DeadlineExceeded) is the second cancel of the call
+			for _, w := range []int{1, 2} {
+				k1, _ = pair()
+				if k1 == "c109" {
+					k1 = "c5"
+				}
+				g := w + 1 + r.Intn(2)
+				c = c10Cfg{api: api, n: g + 1, w: w, ctx: "can", gp: -1, gx: -1, ck: r.PickS("", "d", "v")}
+				c.gw = []string{it(g) + ":xb"}
+				c.m = make([][]string, c.n)
+				for j := range c.m {
+					c.m[j] = []string{"w" + it(j+1)}
+				}
+				c.m[0] = []string{"us" + it(w-1), k1}
+				for j := 1; j < w; j++ {
+					c.m[j] = []string{"s"}
+				}
+				c.r = []string{"ucbm0", "x", "a"}
+				out = append(out, c)
+			}
+		}
+		// two functions of one Finish return errors of different dynamic types
+		k1, k2 := pair()
+		for k1 == "c0" || k2 == "c0" || k1 == "c110" || k2 == "c110" {
+			k1, k2 = pair()
+		}
+		n := 2 + r.Intn(2)
+		c := c10Cfg{api: "finish", n: n, w: n, ctx: "none", gp: -1, gx: -1}
+		c.m = make([][]string, n)
+		for j := range c.m {
+			c.m[j] = []string{"us" + it(n-1)}
+		}
+		c.m[0] = append(c.m[0], k1)
+		c.m[n-1] = append(c.m[n-1], k2)
+		out = append(out, c)
+	}
+	return out
+}
+
 // c10ErrKinds enumerates every error VALUE class at every place an error enters the library: a mapper's cancel, the
 // reducer's cancel, the return value of a Finish function — on every entry point that takes one, alone and against a
 // second cancel / an early reducer write / a function that must no longer run.
@@ -1816,6 +1894,11 @@ func c10Gen(r *verifh.Rng) []verifh.Section {
 			}
 		}
 	}
+	for rep := verifh.Scale(1, 4); rep > 0; rep-- {
+		for _, c := range c10MultiCancel(r) {
+			lines = append(lines, c.String())
+		}
+	}
 	for _, c := range c10Outcomes(r) {
 		lines = append(lines, c10Vary(r, c).String())
 	}
@@ -1924,210 +2007,9 @@ func c10ParseLineAny(line string) (c10Cfg, bool) {
 	return c, true
 }
 
-// ---------------------------------------------------------------- the building blocks on their own (deterministic)
-//
-//   unit gw cap=<k> ctx=<none|live|over> done=<open|closed> v=<n>   newGuardedWriter(ctx, ch, done).Write(v) on a channel of
-//        capacity k (0: a receiver is waiting) => delivered | dropped
-//   unit oc vals=<a,b,…>        newOnceChan(); write(a); write(b)…; repanic(); repanic() => first=<a|none> second=<…|none> buffered=<k>
-//   unit once calls=<n> insts=<m>   m functions made by once(fn), each called n times (the last two concurrently) => ran=<c1,c2,…>
-//   unit opts w=<def|a,b,…> ctx=<none|k>   buildOptions(WithWorkers(a), …, WithContext(ctx) at position k) => workers=<n> ctx=<bg|given>
-//   unit drain n=<k>            drain() of a closed channel holding k items => returned left=<len>
-func c10Unit(op []string) string {
-	if len(op) < 2 {
-		return "bad-op"
-	}
-	cfg := verifh.ParseCfg(strings.Join(op[2:], " "))
-	switch op[1] {
-	case "gw":
-		k := cfg.Int("cap", 0)
-		ctx, cancelCtx := context.Background(), func() {}
-		switch cfg.Str("ctx", "none") {
-		case "live":
-			ctx, cancelCtx = context.WithCancel(context.Background())
-		case "over":
-			ctx, cancelCtx = context.WithCancel(context.Background())
-			cancelCtx()
-		}
-		defer cancelCtx()
-		done := make(chan struct{})
-		if cfg.Str("done", "open") == "closed" {
-			close(done)
-		}
-		ch := make(chan int, k)
-		got := make(chan int, 1)
-		stop := make(chan struct{})
-		var wg sync.WaitGroup
-		if k == 0 {
-			wg.Add(1)
-			go func() {
-				defer wg.Done()
-				select {
-				case v := <-ch:
-					got <- v
-				case <-stop:
-				}
-			}()
-		}
-		w := newGuardedWriter[int](ctx, ch, done)
-		ret := make(chan struct{})
-		go func() { w.Write(cfg.Int("v", 1)); close(ret) }()
-		select {
-		case <-ret:
-		case <-time.After(c10HangMax):
-			close(stop)
-			return "blocked"
-		}
-		close(stop)
-		wg.Wait()
-		select {
-		case v := <-got:
-			return "delivered:" + strconv.Itoa(v)
-		default:
-		}
-		if len(ch) == 1 {
-			return "delivered:" + strconv.Itoa(<-ch)
-		}
-		return "dropped"
-	case "oc":
-		oc := newOnceChan()
-		for _, x := range strings.Split(cfg.Str("vals", ""), ",") {
-			if x != "" {
-				oc.write("v" + x)
-			}
-		}
-		buffered := len(oc.channel)
-		re := func() (out string) {
-			defer func() {
-				if p := recover(); p != nil {
-					out = fmt.Sprint(p)
-				}
-			}()
-			oc.repanic()
-			return "none"
-		}
-		return fmt.Sprintf("first=%s second=%s buffered=%d", re(), re(), buffered)
-	case "once":
-		n, m := cfg.Int("calls", 1), cfg.Int("insts", 1)
-		var ran []string
-		for i := 0; i < m; i++ {
-			var cnt int32
-			var last error
-			f := once(func(err error) { atomic.AddInt32(&cnt, 1); last = err })
-			var wg sync.WaitGroup
-			for j := 0; j < n; j++ {
-				if j >= n-2 {
-					wg.Add(1)
-					go func(j int) { defer wg.Done(); f(c10Err{j + 1}) }(j)
-				} else {
-					f(c10Err{j + 1})
-				}
-			}
-			wg.Wait()
-			s := strconv.Itoa(int(atomic.LoadInt32(&cnt)))
-			if n > 2 && last != (c10Err{1}) {
-				s += "!first-call-lost"
-			}
-			ran = append(ran, s)
-		}
-		return "ran=" + strings.Join(ran, ",")
-	case "opts":
-		var opts []Option
-		if ws := cfg.Str("w", "def"); ws != "def" {
-			for _, x := range strings.Split(ws, ",") {
-				opts = append(opts, WithWorkers(verifh.Atoi(x)))
-			}
-		}
-		type key struct{}
-		given := context.WithValue(context.Background(), key{}, 1)
-		if p := cfg.Str("ctx", "none"); p != "none" {
-			k := verifh.Atoi(p)
-			if k < 0 || k > len(opts) {
-				k = len(opts)
-			}
-			opts = append(opts[:k:k], append([]Option{WithContext(given)}, opts[k:]...)...)
-		}
-		type key2 struct{}
-		given2 := context.WithValue(context.Background(), key2{}, 2)
-		if p := cfg.Str("ctx2", "none"); p != "none" {
-			k := verifh.Atoi(p)
-			if k < 0 || k > len(opts) {
-				k = len(opts)
-			}
-			opts = append(opts[:k:k], append([]Option{WithContext(given2)}, opts[k:]...)...)
-		}
-		o := buildOptions(opts...)
-		c := "other"
-		switch o.ctx {
-		case given2:
-			c = "given2"
-		case given:
-			c = "given"
-		case context.Background():
-			c = "bg"
-		}
-		return fmt.Sprintf("workers=%d ctx=%s", o.workers, c)
-	case "drain":
-		k := cfg.Int("n", 0)
-		ch := make(chan int, k)
-		for i := 0; i < k; i++ {
-			ch <- i
-		}
-		close(ch)
-		ret := make(chan struct{})
-		go func() { drain[int](ch); close(ret) }()
-		select {
-		case <-ret:
-			return "returned left=" + strconv.Itoa(len(ch))
-		case <-time.After(c10HangMax):
-			return "blocked"
-		}
-	}
-	return "bad-op"
-}
-
-func c10UnitGen(r *verifh.Rng) []verifh.Section {
-	var ops []string
-	for _, k := range []int{0, 1, 3, 16} {
-		for _, cx := range []string{"none", "live", "over"} {
-			for _, d := range []string{"open", "closed"} {
-				ops = append(ops, fmt.Sprintf("unit gw cap=%d ctx=%s done=%s v=%d", k, cx, d, r.Range(1, 99)))
-			}
-		}
-	}
-	for _, v := range []string{"", "1", "1,2", "2,1", "3,3,3", "4,5,6,7"} {
-		ops = append(ops, "unit oc vals="+v)
-	}
-	for n := 0; n <= 5; n++ {
-		ops = append(ops, fmt.Sprintf("unit once calls=%d insts=%d", n, r.Range(1, 3)))
-	}
-	for _, w := range []string{"def", "1", "0", "-5", "16", "17", "3,0", "0,3", "2,2,9", "-1,-1"} {
-		ops = append(ops, "unit opts w="+w+" ctx=none")
-		n := len(strings.Split(w, ","))
-		if w == "def" {
-			n = 0
-		}
-		for k := 0; k <= n; k++ {
-			ops = append(ops, fmt.Sprintf("unit opts w=%s ctx=%d", w, k))
-			// two WithContext options: the one applied last wins
-			ops = append(ops, fmt.Sprintf("unit opts w=%s ctx=%d ctx2=%d", w, k, r.Range(0, n+1)))
-		}
-	}
-	for _, k := range []int{0, 1, 5} {
-		ops = append(ops, fmt.Sprintf("unit drain n=%d", k))
-	}
-	return []verifh.Section{{Cfg: "kind=unit", Ops: ops}}
-}
-
 func TestVerifC10(t *testing.T) {
-	secs := verifh.Sections(func(r *verifh.Rng) []verifh.Section {
-		return append(c10UnitGen(r.Fork()), c10Gen(r)...)
-	})
+	secs := verifh.Sections(c10Gen)
 	verifh.Run(t, secs, func(cfg verifh.Cfg) (func(op []string) string, func()) {
-		return func(op []string) string {
-			if len(op) > 0 && op[0] == "unit" {
-				return c10Unit(op)
-			}
-			return c10Exec(op)
-		}, nil
+		return c10Exec, nil
 	})
 }
